@@ -178,6 +178,18 @@ CHECKS["C05"] = dict(
          "backend only (torch: C08). Disagreements of BOTH runs with KgEval are C01's subject and only counted.",
     design_ref="DESIGN.md section 5 C05")
 
+CHECKS["C10"] = dict(
+    technique="TLA+ monitor of a heap of insertion-ordered finite maps with references (DictAbs.tla); Dict.tla generates operation "
+              "histories with the prescribed observations (TLC: exhaustive tree + -simulate); every history executed by a real "
+              "KlongInterpreter, the observed results validated by TLC (DictTrace.tla) against DictAbs",
+    text="All histories of 3 (thorough 4) operations and seeded histories of 9 operations - literal, literal inside a function, alias, "
+         "add/overwrite from either side, find, remove, size, each - over keys of every hashable kind (integers literal/computed/"
+         "negative, real, character, string, empty string, symbol, incl. character = string = symbol text) and 6 values, through two "
+         "variables: every find/size/each result must be what a finite map shared by its aliases gives.",
+    note="Trusted: TLC, the textual rendering of keys/values. A violating history is attributed to the open finding F-C10-same-text-keys "
+         "only if DictAbs accepts it with exactly that finding's key collisions added. d@k and 1 vs 1.0 keys are not enumerated.",
+    design_ref="DESIGN.md section 5 C10")
+
 NOT_YET = {}
 
 
